@@ -18,21 +18,25 @@ def WSt.isInJob : WSt → Bool
   | .inJob _ => true
   | _ => false
 
+/-- the job a worker holds -/
+def WSt.job : WSt → Option Nat
+  | .hasJob j | .inJob j => some j
+  | _ => none
+
 def Job.isAssigned (jb : Job) : Bool := jb.st == .assigned
 def Job.isActive (jb : Job) : Bool := jb.st == .active
 
 /-- the job has been entered (a nil job: skipped) or is being executed -/
 def Job.started (jb : Job) : Prop := jb.st = .active ∨ jb.st = .finished
 
-/-- invariant over jobs, workers, queue and counters -/
-structure JInv (s : St) : Prop where
+/-- invariant over jobs, workers, queue and counters (all clauses that also hold in the middle of
+the constructor) -/
+structure JInv0 (s : St) : Prop where
   bcwf : s.bc.WF
   bccur : s.bc.cur ≠ none
   qlen : s.qsize = (s.queue.length : Nat)
   run : s.running = (s.ws.countP WSt.live : Nat)
   lim : 0 < s.limit → s.running ≤ s.limit
-  /-- a non-empty queue means all permitted workers are busy -/
-  full : s.queue ≠ [] → 0 < s.limit ∧ s.running = s.limit
   nseq : s.nseq = s.nasg + s.queue.length
   /-- the queue holds exactly the enqueued, not yet assigned jobs, in enqueue order -/
   qjobs : ∀ (k j : Nat), s.queue[k]? = some j →
@@ -47,20 +51,27 @@ structure JInv (s : St) : Prop where
   hasJ : ∀ (w j : Nat), s.ws[w]? = some (.hasJob j) → ∃ jb : Job, s.jobs[j]? = some jb ∧ jb.st = .assigned
   inJ : ∀ (w j : Nat), s.ws[w]? = some (.inJob j) →
             ∃ jb : Job, s.jobs[j]? = some jb ∧ jb.st = .active ∧ jb.isNil = false
+  /-- no two workers hold the same job -/
+  uniq : ∀ (w w' j : Nat) (x x' : WSt), s.ws[w]? = some x → s.ws[w']? = some x' → x.job = some j →
+            x'.job = some j → w = w'
   starts : ∀ (j : Nat) (jb : Job), s.jobs[j]? = some jb →
             jb.starts = if (jb.st = .active ∨ jb.st = .finished) ∧ jb.isNil = false then 1 else 0
   /-- limit 1: every job assigned before the latest one has been started -/
   l1 : s.limit = 1 → ∀ (j : Nat) (jb : Job) (q : Nat), s.jobs[j]? = some jb → jb.seq = some q →
             q + 1 < s.nasg → jb.started
 
+structure JInv (s : St) : Prop extends JInv0 s where
+  /-- a non-empty queue means all permitted workers are busy -/
+  full : s.queue ≠ [] → 0 < s.limit ∧ s.running = s.limit
+
 theorem jinv_init : JInv ({} : St) := by
-  refine ⟨?_, ?_, ?_, ?_, ?_, ?_, ?_, ?_, ?_, ?_, ?_, ?_, ?_, ?_, ?_, ?_⟩ <;> simp [Bcast.WF]
+  refine ⟨⟨?_, ?_, ?_, ?_, ?_, ?_, ?_, ?_, ?_, ?_, ?_, ?_, ?_, ?_, ?_, ?_⟩, ?_⟩ <;> simp [Bcast.WF]
 
 /-- events that touch only call states, contexts, mail -/
 theorem jinv_th (s : St) (th : List TS) (cx : List Nat) (mail : List (Nat × Msg)) (h : JInv s) :
     JInv { s with th := th, cx := cx, mail := mail } :=
-  ⟨h.bcwf, h.bccur, h.qlen, h.run, h.lim, h.full, h.nseq, h.qjobs, h.seqs, h.seqinj, h.cntA, h.cntR,
-   h.hasJ, h.inJ, h.starts, h.l1⟩
+  ⟨⟨h.bcwf, h.bccur, h.qlen, h.run, h.lim, h.nseq, h.qjobs, h.seqs, h.seqinj, h.cntA, h.cntR,
+   h.hasJ, h.inJ, h.uniq, h.starts, h.l1⟩, h.full⟩
 
 theorem getWaitCh_cur (b : Bcast) (h : b.cur ≠ none) : b.getWaitCh.1 = b := by
   unfold Bcast.getWaitCh
@@ -82,7 +93,648 @@ theorem bcast_wf (b : Bcast) : (bcast b).WF ∧ (bcast b).cur ≠ none ∧ b.nex
 theorem jinv_th_get (s : St) (th : List TS) (h : JInv s) :
     JInv { s with bc := s.bc.getWaitCh.1, th := th } := by
   have := getWaitCh_cur s.bc h.bccur
-  exact ⟨by simp only [this]; exact h.bcwf, by simp only [this]; exact h.bccur, h.qlen, h.run, h.lim, h.full,
-   h.nseq, h.qjobs, h.seqs, h.seqinj, h.cntA, h.cntR, h.hasJ, h.inJ, h.starts, h.l1⟩
+  exact ⟨⟨by simp only [this]; exact h.bcwf, by simp only [this]; exact h.bccur, h.qlen, h.run, h.lim,
+   h.nseq, h.qjobs, h.seqs, h.seqinj, h.cntA, h.cntR, h.hasJ, h.inJ, h.uniq, h.starts, h.l1⟩, h.full⟩
+
+
+theorem setJob_eq {jobs : List Job} {j : Nat} {jb : Job} (h : jobs[j]? = some jb) (st : JS) (sq : Option Nat) :
+    setJob jobs j st sq = jobs.set j { jb with st := st, seq := sq } := by simp [setJob, h]
+
+theorem setJobSt_eq {jobs : List Job} {j : Nat} {jb : Job} (h : jobs[j]? = some jb) (st : JS) :
+    setJobSt jobs j st = jobs.set j { jb with st := st } := by simp [setJobSt, h]
+
+theorem startJob_eq {jobs : List Job} {j : Nat} {jb : Job} (h : jobs[j]? = some jb) :
+    startJob jobs j = jobs.set j { jb with st := .active, starts := jb.starts + 1 } := by simp [startJob, h]
+
+/-- a fresh job is appended to the queue (`Push`) -/
+theorem jinv0_enq (s : St) (j : Nat) (jb : Job) (h : JInv0 s) (hj : s.jobs[j]? = some jb) (hf : jb.st = .fresh) :
+    JInv0 { s with qsize := s.qsize + 1, queue := s.queue ++ [j],
+                   jobs := setJob s.jobs j .queued (some s.nseq), nseq := s.nseq + 1 } := by
+  rw [setJob_eq hj]
+  have hsq : jb.seq = none := ((h.seqs j jb hj).1).mp hf
+  have hne : ∀ (u : Nat) (x : Job), s.jobs[u]? = some x → x.st ≠ .fresh → u ≠ j := by
+    intro u x hx hxs e; subst e; rw [hj] at hx; cases hx; exact hxs hf
+  refine ⟨h.bcwf, h.bccur, ?_, h.run, h.lim, ?_, ?_, ?_, ?_, ?_, ?_, ?_, ?_, h.uniq, ?_, ?_⟩
+  · simp only [List.length_append, List.length_singleton]; have := h.qlen; omega
+  · simp only [List.length_append, List.length_singleton]; have := h.nseq; omega
+  · intro k j0 hk
+    rcases getElem?_snoc_cases _ _ _ _ hk with ⟨_, hk'⟩ | ⟨hk', rfl⟩
+    · obtain ⟨x, hx, hxs, hxq⟩ := h.qjobs k j0 hk'
+      have := hne j0 x hx (by rw [hxs]; simp)
+      exact ⟨x, by rw [getElem?_set_ne' _ _ _ _ (fun e => this e.symm)]; exact hx, hxs, hxq⟩
+    · refine ⟨_, getElem?_set_self' _ _ _ _ hj, rfl, ?_⟩
+      simp only; rw [hk', h.nseq]
+  · intro u x hx
+    rcases getElem?_set_cases _ _ _ _ _ hx with ⟨_, rfl⟩ | ⟨_, hx'⟩
+    · simp only
+      refine ⟨by simp, ?_⟩
+      intro q hq; cases hq
+      have := h.nseq
+      exact ⟨by omega, by simp; omega⟩
+    · obtain ⟨a, b⟩ := h.seqs u x hx'
+      refine ⟨a, fun q hq => ?_⟩
+      have := b q hq
+      dsimp only
+      exact ⟨by omega, this.2⟩
+  · intro u u' x x' q hx hx' hq hq'
+    rcases getElem?_set_cases _ _ _ _ _ hx with ⟨e1, rfl⟩ | ⟨_, h1⟩ <;>
+      rcases getElem?_set_cases _ _ _ _ _ hx' with ⟨e2, rfl⟩ | ⟨_, h2⟩
+    · rw [e1, e2]
+    · simp only at hq; cases hq
+      have := ((h.seqs u' x' h2).2 _ hq').1; omega
+    · simp only at hq'; cases hq'
+      have := ((h.seqs u x h1).2 _ hq).1; omega
+    · exact h.seqinj u u' x x' q h1 h2 hq hq'
+  · have c := countP_set Job.isAssigned s.jobs j jb { jb with st := .queued, seq := some s.nseq } hj
+    simp only [Job.isAssigned, hf] at c
+    have := h.cntA
+    simp only at c ⊢
+    simp at c
+    omega
+  · have c := countP_set Job.isActive s.jobs j jb { jb with st := .queued, seq := some s.nseq } hj
+    simp only [Job.isActive, hf] at c
+    have := h.cntR
+    simp only at c ⊢
+    simp at c
+    omega
+  · intro w j0 hw
+    obtain ⟨x, hx, hxs⟩ := h.hasJ w j0 hw
+    have := hne j0 x hx (by rw [hxs]; simp)
+    exact ⟨x, by rw [getElem?_set_ne' _ _ _ _ (fun e => this e.symm)]; exact hx, hxs⟩
+  · intro w j0 hw
+    obtain ⟨x, hx, hxs⟩ := h.inJ w j0 hw
+    have := hne j0 x hx (by rw [hxs.1]; simp)
+    exact ⟨x, by rw [getElem?_set_ne' _ _ _ _ (fun e => this e.symm)]; exact hx, hxs⟩
+  · intro u x hx
+    rcases getElem?_set_cases _ _ _ _ _ hx with ⟨_, rfl⟩ | ⟨_, hx'⟩
+    · have := h.starts j jb hj
+      simp [hf] at this
+      simp [this]
+    · exact h.starts u x hx'
+  · intro hl u x q hx hq hlt
+    rcases getElem?_set_cases _ _ _ _ _ hx with ⟨_, rfl⟩ | ⟨_, hx'⟩
+    · simp only at hq; cases hq
+      have := h.nseq; dsimp only at hlt; omega
+    · exact h.l1 hl u x q hx' hq hlt
+
+
+theorem no_assigned (s : St) (h : JInv0 s) (hz : s.ws.countP WSt.isHasJob = 0) :
+    ∀ (u : Nat) (x : Job), s.jobs[u]? = some x → x.st ≠ .assigned := by
+  intro u x hx hs
+  have := h.cntA
+  rw [hz, List.countP_eq_zero] at this
+  have := this x (List.mem_of_getElem? hx)
+  simp [Job.isAssigned, hs] at this
+
+theorem started_of_lt (s : St) (h : JInv0 s)
+    (hna : ∀ (u : Nat) (x : Job), s.jobs[u]? = some x → x.st ≠ .assigned)
+    (u : Nat) (x : Job) (q : Nat) (hx : s.jobs[u]? = some x) (hq : x.seq = some q) (hlt : q < s.nasg) :
+    x.started := by
+  obtain ⟨a, b⟩ := h.seqs u x hx
+  have b' := (b q hq).2
+  have h1 : x.st ≠ .fresh := by intro e; have := a.mp e; rw [hq] at this; cases this
+  have h2 : x.st ≠ .queued := by intro e; have := b'.mp e; omega
+  have h3 := hna u x hx
+  unfold Job.started
+  cases hs : x.st <;> simp_all
+
+theorem holder_state (s : St) (h : JInv0 s) (w j : Nat) (x : WSt) (hw : s.ws[w]? = some x)
+    (hj : x.job = some j) : ∃ jb : Job, s.jobs[j]? = some jb ∧ (jb.st = .assigned ∨ jb.st = .active) := by
+  cases x with
+  | hasJob j0 =>
+    simp [WSt.job] at hj; subst hj
+    obtain ⟨jb, h1, h2⟩ := h.hasJ w j0 hw; exact ⟨jb, h1, Or.inl h2⟩
+  | inJob j0 =>
+    simp [WSt.job] at hj; subst hj
+    obtain ⟨jb, h1, h2, _⟩ := h.inJ w j0 hw; exact ⟨jb, h1, Or.inr h2⟩
+  | afterJob => simp [WSt.job] at hj
+  | retired => simp [WSt.job] at hj
+
+theorem hasJob_zero_of_room (s : St) (h : JInv0 s) (hl : s.limit = 1) (hr : hasRoom s = true) :
+    s.ws.countP WSt.isHasJob = 0 := by
+  simp [hasRoom, hl] at hr
+  have hrun := h.run
+  have h0 : s.ws.countP WSt.live = 0 := by omega
+  rw [List.countP_eq_zero] at h0 ⊢
+  intro x hx hh
+  have := h0 x hx
+  cases x <;> simp [WSt.live, WSt.isHasJob] at this hh
+
+/-- a fresh job is started directly (`Enqueue` with room): new worker goroutine -/
+theorem jinv0_assignNew (s : St) (j : Nat) (jb : Job) (h : JInv0 s) (hj : s.jobs[j]? = some jb)
+    (hf : jb.st = .fresh) (hq : s.queue = []) (hr : hasRoom s = true) :
+    JInv0 { s with running := s.running + 1, ws := s.ws ++ [.hasJob j],
+                   jobs := setJob s.jobs j .assigned (some s.nseq), nseq := s.nseq + 1, nasg := s.nasg + 1 } := by
+  rw [setJob_eq hj]
+  have hne : ∀ (u : Nat) (x : Job), s.jobs[u]? = some x → x.st ≠ .fresh → u ≠ j := by
+    intro u x hx hxs e; subst e; rw [hj] at hx; cases hx; exact hxs hf
+  have hns : s.nseq = s.nasg := by have := h.nseq; rw [hq] at this; simpa using this
+  refine ⟨h.bcwf, h.bccur, h.qlen, ?_, ?_, ?_, ?_, ?_, ?_, ?_, ?_, ?_, ?_, ?_, ?_, ?_⟩
+  · have := h.run; simp [List.countP_append, WSt.live]; omega
+  · intro hl; simp [hasRoom] at hr; dsimp only at hl ⊢; omega
+  · dsimp only; rw [hq]; simp; omega
+  · intro k j0 hk; rw [hq] at hk; simp at hk
+  · intro u x hx
+    rcases getElem?_set_cases _ _ _ _ _ hx with ⟨_, rfl⟩ | ⟨_, hx'⟩
+    · refine ⟨by simp, ?_⟩
+      intro q hq'; cases hq'
+      dsimp only
+      exact ⟨by omega, by simp; omega⟩
+    · obtain ⟨a, b⟩ := h.seqs u x hx'
+      refine ⟨a, fun q hq' => ?_⟩
+      have := b q hq'
+      dsimp only
+      refine ⟨by omega, ?_⟩
+      rw [this.2]; constructor <;> intro <;> omega
+  · intro u u' x x' q hx hx' hq1 hq2
+    rcases getElem?_set_cases _ _ _ _ _ hx with ⟨e1, rfl⟩ | ⟨_, h1⟩ <;>
+      rcases getElem?_set_cases _ _ _ _ _ hx' with ⟨e2, rfl⟩ | ⟨_, h2⟩
+    · rw [e1, e2]
+    · simp only at hq1; cases hq1
+      have := ((h.seqs u' x' h2).2 _ hq2).1; omega
+    · simp only at hq2; cases hq2
+      have := ((h.seqs u x h1).2 _ hq1).1; omega
+    · exact h.seqinj u u' x x' q h1 h2 hq1 hq2
+  · have c := countP_set Job.isAssigned s.jobs j jb { jb with st := .assigned, seq := some s.nseq } hj
+    simp only [Job.isAssigned, hf] at c
+    have := h.cntA
+    simp [List.countP_append, WSt.isHasJob] at c ⊢
+    omega
+  · have c := countP_set Job.isActive s.jobs j jb { jb with st := .assigned, seq := some s.nseq } hj
+    simp only [Job.isActive, hf] at c
+    have := h.cntR
+    simp [List.countP_append, WSt.isInJob] at c ⊢
+    omega
+  · intro w j0 hw
+    rcases getElem?_snoc_cases _ _ _ _ hw with ⟨_, hw'⟩ | ⟨_, e⟩
+    · obtain ⟨x, hx, hxs⟩ := h.hasJ w j0 hw'
+      have := hne j0 x hx (by rw [hxs]; simp)
+      exact ⟨x, by rw [getElem?_set_ne' _ _ _ _ (fun e => this e.symm)]; exact hx, hxs⟩
+    · cases e; exact ⟨_, getElem?_set_self' _ _ _ _ hj, rfl⟩
+  · intro w j0 hw
+    rcases getElem?_snoc_cases _ _ _ _ hw with ⟨_, hw'⟩ | ⟨_, e⟩
+    · obtain ⟨x, hx, hxs⟩ := h.inJ w j0 hw'
+      have := hne j0 x hx (by rw [hxs.1]; simp)
+      exact ⟨x, by rw [getElem?_set_ne' _ _ _ _ (fun e => this e.symm)]; exact hx, hxs⟩
+    · cases e
+  · intro w w' j0 x x' hw hw' hx hx'
+    rcases getElem?_snoc_cases _ _ _ _ hw with ⟨_, h1⟩ | ⟨e1, rfl⟩ <;>
+      rcases getElem?_snoc_cases _ _ _ _ hw' with ⟨_, h2⟩ | ⟨e2, rfl⟩
+    · exact h.uniq w w' j0 x x' h1 h2 hx hx'
+    · simp [WSt.job] at hx'; subst hx'
+      obtain ⟨y, hy, hys⟩ := holder_state s h w j x h1 hx
+      rw [hj] at hy; cases hy; rw [hf] at hys; simp at hys
+    · simp [WSt.job] at hx; subst hx
+      obtain ⟨y, hy, hys⟩ := holder_state s h w' j x' h2 hx'
+      rw [hj] at hy; cases hy; rw [hf] at hys; simp at hys
+    · omega
+  · intro u x hx
+    rcases getElem?_set_cases _ _ _ _ _ hx with ⟨_, rfl⟩ | ⟨_, hx'⟩
+    · have := h.starts j jb hj
+      simp [hf] at this
+      simp [this]
+    · exact h.starts u x hx'
+  · intro hl u x q hx hq' hlt
+    dsimp only at hlt hl
+    have hna := no_assigned s h (hasJob_zero_of_room s h hl hr)
+    rcases getElem?_set_cases _ _ _ _ _ hx with ⟨_, rfl⟩ | ⟨_, hx'⟩
+    · simp only at hq'; cases hq'; omega
+    · exact started_of_lt s h hna u x q hx' hq' (by omega)
+
+
+/-- facts about the head of the queue -/
+theorem queue_head (s : St) (h : JInv0 s) (j : Nat) (rest : List Nat) (hq : s.queue = j :: rest) :
+    ∃ jb : Job, s.jobs[j]? = some jb ∧ jb.st = .queued ∧ jb.seq = some s.nasg := by
+  obtain ⟨jb, h1, h2, h3⟩ := h.qjobs 0 j (by rw [hq]; rfl)
+  exact ⟨jb, h1, h2, by simpa using h3⟩
+
+/-- job-table clauses shared by the two pop operations: job `j` (head of the queue) becomes assigned -/
+theorem pop_jobs (s : St) (h : JInv0 s) (j : Nat) (rest : List Nat) (jb : Job) (hq : s.queue = j :: rest)
+    (hj : s.jobs[j]? = some jb) (hst : jb.st = .queued) (hsq : jb.seq = some s.nasg) :
+    let jobs' := s.jobs.set j { jb with st := .assigned }
+    (s.nseq = s.nasg + 1 + rest.length) ∧
+    (∀ (k j0 : Nat), rest[k]? = some j0 →
+        ∃ x : Job, jobs'[j0]? = some x ∧ x.st = .queued ∧ x.seq = some (s.nasg + 1 + k)) ∧
+    (∀ (u : Nat) (x : Job), jobs'[u]? = some x →
+        (x.st = .fresh ↔ x.seq = none) ∧
+        ∀ q : Nat, x.seq = some q → q < s.nseq ∧ (x.st = .queued ↔ s.nasg + 1 ≤ q)) ∧
+    (∀ (u u' : Nat) (x x' : Job) (q : Nat), jobs'[u]? = some x → jobs'[u']? = some x' →
+        x.seq = some q → x'.seq = some q → u = u') ∧
+    (jobs'.countP Job.isAssigned = s.jobs.countP Job.isAssigned + 1) ∧
+    (jobs'.countP Job.isActive = s.jobs.countP Job.isActive) ∧
+    (∀ (u : Nat) (x : Job), jobs'[u]? = some x →
+        x.starts = if (x.st = .active ∨ x.st = .finished) ∧ x.isNil = false then 1 else 0) := by
+  intro jobs'
+  have hseqj : ∀ (u : Nat) (x : Job), s.jobs[u]? = some x → x.seq = some s.nasg → u = j :=
+    fun u x hx hxq => h.seqinj u j x jb s.nasg hx hj hxq hsq
+  refine ⟨?_, ?_, ?_, ?_, ?_, ?_, ?_⟩
+  · have := h.nseq; rw [hq] at this; simp at this; omega
+  · intro k j0 hk
+    obtain ⟨x, hx, hxs, hxq⟩ := h.qjobs (k+1) j0 (by rw [hq]; simpa using hk)
+    have hne : j ≠ j0 := by
+      intro e; subst e; rw [hj] at hx; cases hx; rw [hsq] at hxq; simp at hxq
+    exact ⟨x, by simp only [jobs']; rw [getElem?_set_ne' _ _ _ _ hne]; exact hx, hxs, by rw [hxq]; congr 1; omega⟩
+  · intro u x hx
+    rcases getElem?_set_cases _ _ _ _ _ hx with ⟨_, rfl⟩ | ⟨hne, hx'⟩
+    · refine ⟨by simp [hsq], ?_⟩
+      intro q hq'
+      simp only [hsq] at hq'; cases hq'
+      have := ((h.seqs j jb hj).2 _ hsq).1
+      exact ⟨this, by simp⟩
+    · obtain ⟨a, b⟩ := h.seqs u x hx'
+      refine ⟨a, fun q hq' => ?_⟩
+      have hb := b q hq'
+      refine ⟨hb.1, ?_⟩
+      rw [hb.2]
+      have : q ≠ s.nasg := by intro e; subst e; exact hne (hseqj u x hx' hq')
+      constructor <;> intro <;> omega
+  · intro u u' x x' q hx hx' hq1 hq2
+    rcases getElem?_set_cases _ _ _ _ _ hx with ⟨e1, rfl⟩ | ⟨n1, h1⟩ <;>
+      rcases getElem?_set_cases _ _ _ _ _ hx' with ⟨e2, rfl⟩ | ⟨n2, h2⟩
+    · rw [e1, e2]
+    · simp only [hsq] at hq1; cases hq1; exact absurd (hseqj u' x' h2 hq2) n2
+    · simp only [hsq] at hq2; cases hq2; exact absurd (hseqj u x h1 hq1) n1
+    · exact h.seqinj u u' x x' q h1 h2 hq1 hq2
+  · have c := countP_set Job.isAssigned s.jobs j jb { jb with st := .assigned } hj
+    simp only [Job.isAssigned, hst] at c
+    simp at c; simp only [jobs']; omega
+  · have c := countP_set Job.isActive s.jobs j jb { jb with st := .assigned } hj
+    simp only [Job.isActive, hst] at c
+    simp at c; simp only [jobs']; omega
+  · intro u x hx
+    rcases getElem?_set_cases _ _ _ _ _ hx with ⟨_, rfl⟩ | ⟨_, hx'⟩
+    · have := h.starts j jb hj
+      simp [hst] at this
+      simp [this]
+    · exact h.starts u x hx'
+
+
+/-- `updateLocked` pops a job for a new worker goroutine -/
+theorem jinv0_popNew (s : St) (j : Nat) (rest : List Nat) (h : JInv0 s) (hq : s.queue = j :: rest)
+    (hr : hasRoom s = true) :
+    JInv0 { s with queue := rest, qsize := s.qsize - 1, running := s.running + 1,
+                   ws := s.ws ++ [.hasJob j], jobs := setJobSt s.jobs j .assigned, nasg := s.nasg + 1 } := by
+  obtain ⟨jb, hj, hst, hsq⟩ := queue_head s h j rest hq
+  rw [setJobSt_eq hj]
+  obtain ⟨p1, p2, p3, p4, p5, p6, p7⟩ := pop_jobs s h j rest jb hq hj hst hsq
+  have hne : ∀ (u : Nat) (x : Job), s.jobs[u]? = some x → x.st ≠ .queued → u ≠ j := by
+    intro u x hx hxs e; subst e; rw [hj] at hx; cases hx; exact hxs hst
+  refine ⟨h.bcwf, h.bccur, ?_, ?_, ?_, ?_, ?_, p3, p4, ?_, ?_, ?_, ?_, ?_, p7, ?_⟩
+  · have := h.qlen; rw [hq] at this; simp at this; dsimp only; omega
+  · have := h.run; simp [List.countP_append, WSt.live]; omega
+  · intro hl; simp [hasRoom] at hr; dsimp only at hl ⊢; omega
+  · dsimp only; omega
+  · intro k j0 hk
+    obtain ⟨x, a, b, c⟩ := p2 k j0 hk
+    exact ⟨x, a, b, by rw [c]⟩
+  · have := h.cntA; simp [List.countP_append, WSt.isHasJob]; omega
+  · have := h.cntR; simp [List.countP_append, WSt.isInJob]; omega
+  · intro w j0 hw
+    rcases getElem?_snoc_cases _ _ _ _ hw with ⟨_, hw'⟩ | ⟨_, e⟩
+    · obtain ⟨x, hx, hxs⟩ := h.hasJ w j0 hw'
+      have := hne j0 x hx (by rw [hxs]; simp)
+      exact ⟨x, by rw [getElem?_set_ne' _ _ _ _ (fun e => this e.symm)]; exact hx, hxs⟩
+    · cases e; exact ⟨_, getElem?_set_self' _ _ _ _ hj, rfl⟩
+  · intro w j0 hw
+    rcases getElem?_snoc_cases _ _ _ _ hw with ⟨_, hw'⟩ | ⟨_, e⟩
+    · obtain ⟨x, hx, hxs⟩ := h.inJ w j0 hw'
+      have := hne j0 x hx (by rw [hxs.1]; simp)
+      exact ⟨x, by rw [getElem?_set_ne' _ _ _ _ (fun e => this e.symm)]; exact hx, hxs⟩
+    · cases e
+  · intro w w' j0 x x' hw hw' hx hx'
+    rcases getElem?_snoc_cases _ _ _ _ hw with ⟨_, h1⟩ | ⟨e1, rfl⟩ <;>
+      rcases getElem?_snoc_cases _ _ _ _ hw' with ⟨_, h2⟩ | ⟨e2, rfl⟩
+    · exact h.uniq w w' j0 x x' h1 h2 hx hx'
+    · simp [WSt.job] at hx'; subst hx'
+      obtain ⟨y, hy, hys⟩ := holder_state s h w j x h1 hx
+      rw [hj] at hy; cases hy; rw [hst] at hys; simp at hys
+    · simp [WSt.job] at hx; subst hx
+      obtain ⟨y, hy, hys⟩ := holder_state s h w' j x' h2 hx'
+      rw [hj] at hy; cases hy; rw [hst] at hys; simp at hys
+    · omega
+  · intro hl u x q hx hq' hlt
+    dsimp only at hlt hl
+    have hna := no_assigned s h (hasJob_zero_of_room s h hl hr)
+    rcases getElem?_set_cases _ _ _ _ _ hx with ⟨_, rfl⟩ | ⟨_, hx'⟩
+    · simp only [hsq] at hq'; cases hq'; omega
+    · exact started_of_lt s h hna u x q hx' hq' (by omega)
+
+theorem set_live_count (ws : List WSt) (w : Nat) (a b : WSt) (ha : ws[w]? = some a)
+    (p : WSt → Bool) : (ws.set w b).countP p + (if p a then 1 else 0) = ws.countP p + (if p b then 1 else 0) :=
+  countP_set p ws w a b ha
+
+/-- limit 1 and worker `w` is past its job: no other worker holds a job -/
+theorem hasJob_zero_of_after (s : St) (h : JInv0 s) (hl : s.limit = 1) (w : Nat)
+    (hw : s.ws[w]? = some .afterJob) : s.ws.countP WSt.isHasJob = 0 := by
+  have hrun := h.run
+  have hlim := h.lim (by omega)
+  rw [List.countP_eq_zero]
+  intro x hx hh
+  obtain ⟨w', hw'⟩ := List.getElem?_of_mem hx
+  have hne : w ≠ w' := by intro e; subst e; rw [hw] at hw'; cases hw'; simp [WSt.isHasJob] at hh
+  have := countP_ge_two WSt.live s.ws w w' _ _ hne hw hw' rfl (by cases x <;> simp [WSt.live, WSt.isHasJob] at hh ⊢)
+  omega
+
+/-- a worker that finished a job pops the next one -/
+theorem jinv0_popTo (s : St) (w j : Nat) (rest : List Nat) (h : JInv0 s) (hq : s.queue = j :: rest)
+    (hw : s.ws[w]? = some .afterJob) :
+    JInv0 { s with queue := rest, qsize := s.qsize - 1, ws := s.ws.set w (.hasJob j),
+                   jobs := setJobSt s.jobs j .assigned, nasg := s.nasg + 1 } := by
+  obtain ⟨jb, hj, hst, hsq⟩ := queue_head s h j rest hq
+  rw [setJobSt_eq hj]
+  obtain ⟨p1, p2, p3, p4, p5, p6, p7⟩ := pop_jobs s h j rest jb hq hj hst hsq
+  have hne : ∀ (u : Nat) (x : Job), s.jobs[u]? = some x → x.st ≠ .queued → u ≠ j := by
+    intro u x hx hxs e; subst e; rw [hj] at hx; cases hx; exact hxs hst
+  refine ⟨h.bcwf, h.bccur, ?_, ?_, h.lim, ?_, ?_, p3, p4, ?_, ?_, ?_, ?_, ?_, p7, ?_⟩
+  · have := h.qlen; rw [hq] at this; simp at this; dsimp only; omega
+  · have c := countP_set WSt.live s.ws w _ (.hasJob j) hw
+    have := h.run; simp [WSt.live] at c; dsimp only; omega
+  · dsimp only; omega
+  · intro k j0 hk
+    obtain ⟨x, a, b, c⟩ := p2 k j0 hk
+    exact ⟨x, a, b, by rw [c]⟩
+  · have c := countP_set WSt.isHasJob s.ws w _ (.hasJob j) hw
+    have := h.cntA; simp [WSt.isHasJob] at c; dsimp only; omega
+  · have c := countP_set WSt.isInJob s.ws w _ (.hasJob j) hw
+    have := h.cntR; simp [WSt.isInJob] at c; dsimp only; omega
+  · intro w' j0 hw'
+    rcases getElem?_set_cases _ _ _ _ _ hw' with ⟨_, e⟩ | ⟨_, hw''⟩
+    · cases e; exact ⟨_, getElem?_set_self' _ _ _ _ hj, rfl⟩
+    · obtain ⟨x, hx, hxs⟩ := h.hasJ w' j0 hw''
+      have := hne j0 x hx (by rw [hxs]; simp)
+      exact ⟨x, by rw [getElem?_set_ne' _ _ _ _ (fun e => this e.symm)]; exact hx, hxs⟩
+  · intro w' j0 hw'
+    rcases getElem?_set_cases _ _ _ _ _ hw' with ⟨_, e⟩ | ⟨_, hw''⟩
+    · cases e
+    · obtain ⟨x, hx, hxs⟩ := h.inJ w' j0 hw''
+      have := hne j0 x hx (by rw [hxs.1]; simp)
+      exact ⟨x, by rw [getElem?_set_ne' _ _ _ _ (fun e => this e.symm)]; exact hx, hxs⟩
+  · intro w1 w2 j0 x x' hw1 hw2 hx hx'
+    rcases getElem?_set_cases _ _ _ _ _ hw1 with ⟨e1, rfl⟩ | ⟨_, h1⟩ <;>
+      rcases getElem?_set_cases _ _ _ _ _ hw2 with ⟨e2, rfl⟩ | ⟨_, h2⟩
+    · rw [e1, e2]
+    · simp [WSt.job] at hx; subst hx
+      obtain ⟨y, hy, hys⟩ := holder_state s h w2 j x' h2 hx'
+      rw [hj] at hy; cases hy; rw [hst] at hys; simp at hys
+    · simp [WSt.job] at hx'; subst hx'
+      obtain ⟨y, hy, hys⟩ := holder_state s h w1 j x h1 hx
+      rw [hj] at hy; cases hy; rw [hst] at hys; simp at hys
+    · exact h.uniq w1 w2 j0 x x' h1 h2 hx hx'
+  · intro hl u x q hx hq' hlt
+    dsimp only at hlt hl
+    have hna := no_assigned s h (hasJob_zero_of_after s h hl w hw)
+    rcases getElem?_set_cases _ _ _ _ _ hx with ⟨_, rfl⟩ | ⟨_, hx'⟩
+    · simp only [hsq] at hq'; cases hq'; omega
+    · exact started_of_lt s h hna u x q hx' hq' (by omega)
+
+
+/-- job-table clauses when a held job moves on (assigned → active / finished, active → finished) -/
+theorem work_jobs (s : St) (h : JInv0 s) (j : Nat) (jb : Job) (st' : JS) (n : Nat)
+    (hj : s.jobs[j]? = some jb) (hold : jb.st = .assigned ∨ jb.st = .active)
+    (hnew : st' = .active ∨ st' = .finished) :
+    let jobs' := s.jobs.set j { jb with st := st', starts := n }
+    (∀ (k j0 : Nat), s.queue[k]? = some j0 →
+        ∃ x : Job, jobs'[j0]? = some x ∧ x.st = .queued ∧ x.seq = some (s.nasg + k)) ∧
+    (∀ (u : Nat) (x : Job), jobs'[u]? = some x →
+        (x.st = .fresh ↔ x.seq = none) ∧
+        ∀ q : Nat, x.seq = some q → q < s.nseq ∧ (x.st = .queued ↔ s.nasg ≤ q)) ∧
+    (∀ (u u' : Nat) (x x' : Job) (q : Nat), jobs'[u]? = some x → jobs'[u']? = some x' →
+        x.seq = some q → x'.seq = some q → u = u') ∧
+    (s.limit = 1 → ∀ (u : Nat) (x : Job) (q : Nat), jobs'[u]? = some x → x.seq = some q →
+        q + 1 < s.nasg → x.started) := by
+  intro jobs'
+  have hnf : jb.st ≠ .fresh := by rcases hold with e | e <;> rw [e] <;> simp
+  have hnq : jb.st ≠ .queued := by rcases hold with e | e <;> rw [e] <;> simp
+  have hnf' : st' ≠ .fresh := by rcases hnew with e | e <;> rw [e] <;> simp
+  have hnq' : st' ≠ .queued := by rcases hnew with e | e <;> rw [e] <;> simp
+  refine ⟨?_, ?_, ?_, ?_⟩
+  · intro k j0 hk
+    obtain ⟨x, hx, hxs, hxq⟩ := h.qjobs k j0 hk
+    have hne : j ≠ j0 := by intro e; subst e; rw [hj] at hx; cases hx; exact hnq hxs
+    exact ⟨x, by simp only [jobs']; rw [getElem?_set_ne' _ _ _ _ hne]; exact hx, hxs, hxq⟩
+  · intro u x hx
+    rcases getElem?_set_cases _ _ _ _ _ hx with ⟨_, rfl⟩ | ⟨_, hx'⟩
+    · obtain ⟨a, b⟩ := h.seqs j jb hj
+      refine ⟨?_, ?_⟩
+      · simp only
+        constructor
+        · intro e; exact absurd e hnf'
+        · intro e; exact absurd (a.mpr e) hnf
+      · intro q hq
+        have := b q hq
+        refine ⟨this.1, ?_⟩
+        simp only
+        constructor
+        · intro e; exact absurd e hnq'
+        · intro e; exact absurd (this.2.mpr e) hnq
+    · exact h.seqs u x hx'
+  · intro u u' x x' q hx hx' hq1 hq2
+    have f : ∀ (v : Nat) (y : Job), jobs'[v]? = some y → ∃ y0 : Job, s.jobs[v]? = some y0 ∧ y0.seq = y.seq := by
+      intro v y hy
+      rcases getElem?_set_cases _ _ _ _ _ hy with ⟨e, rfl⟩ | ⟨_, hy'⟩
+      · exact ⟨jb, by rw [e]; exact hj, rfl⟩
+      · exact ⟨y, hy', rfl⟩
+    obtain ⟨y, hy, ey⟩ := f u x hx
+    obtain ⟨y', hy', ey'⟩ := f u' x' hx'
+    exact h.seqinj u u' y y' q hy hy' (by rw [ey]; exact hq1) (by rw [ey']; exact hq2)
+  · intro hl u x q hx hq hlt
+    rcases getElem?_set_cases _ _ _ _ _ hx with ⟨_, rfl⟩ | ⟨_, hx'⟩
+    · exact hnew
+    · exact h.l1 hl u x q hx' hq hlt
+
+/-- the worker enters its (non-nil) job -/
+theorem jinv0_jobIn (s : St) (w j : Nat) (jb : Job) (h : JInv0 s) (hw : s.ws[w]? = some (.hasJob j))
+    (hj : s.jobs[j]? = some jb) (hnil : jb.isNil = false) :
+    JInv0 { s with ws := s.ws.set w (.inJob j), jobs := startJob s.jobs j } := by
+  rw [startJob_eq hj]
+  obtain ⟨jb0, hj0, hst⟩ := h.hasJ w j hw
+  rw [hj] at hj0; cases hj0
+  obtain ⟨p1, p2, p3, p4⟩ := work_jobs s h j jb .active (jb.starts + 1) hj (Or.inl hst) (Or.inl rfl)
+  refine ⟨h.bcwf, h.bccur, h.qlen, ?_, h.lim, h.nseq, p1, p2, p3, ?_, ?_, ?_, ?_, ?_, ?_, p4⟩
+  · have c := countP_set WSt.live s.ws w _ (.inJob j) hw
+    have := h.run; simp [WSt.live] at c; dsimp only; omega
+  · have c := countP_set WSt.isHasJob s.ws w _ (.inJob j) hw
+    have c2 := countP_set Job.isAssigned s.jobs j jb { jb with st := .active, starts := jb.starts + 1 } hj
+    have := h.cntA; simp [WSt.isHasJob, Job.isAssigned, hst] at c c2; dsimp only; omega
+  · have c := countP_set WSt.isInJob s.ws w _ (.inJob j) hw
+    have c2 := countP_set Job.isActive s.jobs j jb { jb with st := .active, starts := jb.starts + 1 } hj
+    have := h.cntR; simp [WSt.isInJob, Job.isActive, hst] at c c2; dsimp only; omega
+  · intro w' j0 hw'
+    rcases getElem?_set_cases _ _ _ _ _ hw' with ⟨_, e⟩ | ⟨hne, hw''⟩
+    · cases e
+    · obtain ⟨x, hx, hxs⟩ := h.hasJ w' j0 hw''
+      have : j ≠ j0 := by
+        intro e; subst e
+        exact hne (h.uniq w' w j _ _ hw'' hw rfl rfl)
+      exact ⟨x, by rw [getElem?_set_ne' _ _ _ _ this]; exact hx, hxs⟩
+  · intro w' j0 hw'
+    rcases getElem?_set_cases _ _ _ _ _ hw' with ⟨_, e⟩ | ⟨hne, hw''⟩
+    · cases e; exact ⟨_, getElem?_set_self' _ _ _ _ hj, rfl, hnil⟩
+    · obtain ⟨x, hx, hxs⟩ := h.inJ w' j0 hw''
+      have : j ≠ j0 := by
+        intro e; subst e
+        exact hne (h.uniq w' w j _ _ hw'' hw rfl rfl)
+      exact ⟨x, by rw [getElem?_set_ne' _ _ _ _ this]; exact hx, hxs⟩
+  · intro w1 w2 j0 x x' hw1 hw2 hx hx'
+    have f : ∀ (v : Nat) (y : WSt), (s.ws.set w (.inJob j))[v]? = some y → y.job = some j0 →
+        ∃ y0 : WSt, s.ws[v]? = some y0 ∧ y0.job = some j0 := by
+      intro v y hy hyj
+      rcases getElem?_set_cases _ _ _ _ _ hy with ⟨e, rfl⟩ | ⟨_, hy'⟩
+      · exact ⟨_, by rw [e]; exact hw, by simpa [WSt.job] using hyj⟩
+      · exact ⟨y, hy', hyj⟩
+    obtain ⟨y, hy, ey⟩ := f w1 x hw1 hx
+    obtain ⟨y', hy', ey'⟩ := f w2 x' hw2 hx'
+    exact h.uniq w1 w2 j0 y y' hy hy' ey ey'
+  · intro u x hx
+    rcases getElem?_set_cases _ _ _ _ _ hx with ⟨_, rfl⟩ | ⟨_, hx'⟩
+    · have := h.starts j jb hj
+      simp [hst] at this
+      simp [this, hnil]
+    · exact h.starts u x hx'
+
+
+/-- the worker is done with job `j`: a nil job skipped (`a = hasJob j`) or a job returned (`a = inJob j`) -/
+theorem jinv0_release (s : St) (w j : Nat) (a : WSt) (jb : Job) (h : JInv0 s) (hw : s.ws[w]? = some a)
+    (ha : (a = .hasJob j ∧ jb.isNil = true) ∨ a = .inJob j) (hj : s.jobs[j]? = some jb) :
+    JInv0 { s with ws := s.ws.set w .afterJob, jobs := setJobSt s.jobs j .finished } := by
+  rw [setJobSt_eq hj]
+  have haj : a.job = some j := by rcases ha with ⟨e, _⟩ | e <;> rw [e] <;> rfl
+  have hst : (jb.st = .assigned ∧ a = .hasJob j ∧ jb.isNil = true) ∨ (jb.st = .active ∧ a = .inJob j ∧ jb.isNil = false) := by
+    rcases ha with ⟨e, hn⟩ | e
+    · subst e
+      obtain ⟨x, hx, hxs⟩ := h.hasJ w j hw
+      rw [hj] at hx; cases hx; exact Or.inl ⟨hxs, rfl, hn⟩
+    · subst e
+      obtain ⟨x, hx, hxs, hn⟩ := h.inJ w j hw
+      rw [hj] at hx; cases hx; exact Or.inr ⟨hxs, rfl, hn⟩
+  have hold : jb.st = .assigned ∨ jb.st = .active := by rcases hst with h1 | h1; exact Or.inl h1.1; exact Or.inr h1.1
+  have hs := h.starts j jb hj
+  obtain ⟨p1, p2, p3, p4⟩ := work_jobs s h j jb .finished jb.starts hj hold (Or.inr rfl)
+  refine ⟨h.bcwf, h.bccur, h.qlen, ?_, h.lim, h.nseq, p1, p2, p3, ?_, ?_, ?_, ?_, ?_, ?_, p4⟩
+  · have c := countP_set WSt.live s.ws w _ .afterJob hw
+    have hr := h.run
+    have hal : a.live = true := by rcases ha with ⟨e, _⟩ | e <;> rw [e] <;> rfl
+    rw [hal] at c; simp [WSt.live] at c; dsimp only; omega
+  · have c := countP_set WSt.isHasJob s.ws w _ .afterJob hw
+    have c2 := countP_set Job.isAssigned s.jobs j jb { jb with st := .finished, starts := jb.starts } hj
+    have := h.cntA
+    rcases hst with ⟨e1, e2, _⟩ | ⟨e1, e2, _⟩ <;> subst e2 <;>
+      simp [WSt.isHasJob, Job.isAssigned, e1] at c c2 <;> dsimp only <;> omega
+  · have c := countP_set WSt.isInJob s.ws w _ .afterJob hw
+    have c2 := countP_set Job.isActive s.jobs j jb { jb with st := .finished, starts := jb.starts } hj
+    have := h.cntR
+    rcases hst with ⟨e1, e2, _⟩ | ⟨e1, e2, _⟩ <;> subst e2 <;>
+      simp [WSt.isInJob, Job.isActive, e1] at c c2 <;> dsimp only <;> omega
+  · intro w' j0 hw'
+    rcases getElem?_set_cases _ _ _ _ _ hw' with ⟨_, e⟩ | ⟨hne, hw''⟩
+    · cases e
+    · obtain ⟨x, hx, hxs⟩ := h.hasJ w' j0 hw''
+      have : j ≠ j0 := by
+        intro e; subst e
+        exact hne (h.uniq w' w j _ _ hw'' hw rfl haj)
+      exact ⟨x, by rw [getElem?_set_ne' _ _ _ _ this]; exact hx, hxs⟩
+  · intro w' j0 hw'
+    rcases getElem?_set_cases _ _ _ _ _ hw' with ⟨_, e⟩ | ⟨hne, hw''⟩
+    · cases e
+    · obtain ⟨x, hx, hxs⟩ := h.inJ w' j0 hw''
+      have : j ≠ j0 := by
+        intro e; subst e
+        exact hne (h.uniq w' w j _ _ hw'' hw rfl haj)
+      exact ⟨x, by rw [getElem?_set_ne' _ _ _ _ this]; exact hx, hxs⟩
+  · intro w1 w2 j0 x x' hw1 hw2 hx hx'
+    rcases getElem?_set_cases _ _ _ _ _ hw1 with ⟨_, rfl⟩ | ⟨_, h1⟩
+    · simp [WSt.job] at hx
+    · rcases getElem?_set_cases _ _ _ _ _ hw2 with ⟨_, rfl⟩ | ⟨_, h2⟩
+      · simp [WSt.job] at hx'
+      · exact h.uniq w1 w2 j0 x x' h1 h2 hx hx'
+  · intro u x hx
+    rcases getElem?_set_cases _ _ _ _ _ hx with ⟨_, rfl⟩ | ⟨_, hx'⟩
+    · rcases hst with ⟨e1, _, e3⟩ | ⟨e1, _, e3⟩ <;> simp [e1, e3] at hs <;> simp [hs, e3]
+    · exact h.starts u x hx'
+
+/-- a worker with nothing left to do retires (`running--`, broadcast) -/
+theorem jinv0_retire (s : St) (w : Nat) (h : JInv0 s) (hw : s.ws[w]? = some .afterJob) :
+    JInv0 { s with running := s.running - 1, bc := bcast s.bc, ws := s.ws.set w .retired } := by
+  obtain ⟨b1, b2, _, _⟩ := bcast_wf s.bc
+  refine ⟨b1, b2, h.qlen, ?_, ?_, h.nseq, h.qjobs, h.seqs, h.seqinj, ?_, ?_, ?_, ?_, ?_, h.starts, h.l1⟩
+  · have c := countP_set WSt.live s.ws w _ .retired hw
+    have := h.run; simp [WSt.live] at c; dsimp only; omega
+  · intro hl; have := h.lim hl; dsimp only; omega
+  · have c := countP_set WSt.isHasJob s.ws w _ .retired hw
+    have := h.cntA; simp [WSt.isHasJob] at c; dsimp only; omega
+  · have c := countP_set WSt.isInJob s.ws w _ .retired hw
+    have := h.cntR; simp [WSt.isInJob] at c; dsimp only; omega
+  · intro w' j0 hw'
+    rcases getElem?_set_cases _ _ _ _ _ hw' with ⟨_, e⟩ | ⟨_, hw''⟩
+    · cases e
+    · exact h.hasJ w' j0 hw''
+  · intro w' j0 hw'
+    rcases getElem?_set_cases _ _ _ _ _ hw' with ⟨_, e⟩ | ⟨_, hw''⟩
+    · cases e
+    · exact h.inJ w' j0 hw''
+  · intro w1 w2 j0 x x' hw1 hw2 hx hx'
+    rcases getElem?_set_cases _ _ _ _ _ hw1 with ⟨_, rfl⟩ | ⟨_, h1⟩
+    · simp [WSt.job] at hx
+    · rcases getElem?_set_cases _ _ _ _ _ hw2 with ⟨_, rfl⟩ | ⟨_, h2⟩
+      · simp [WSt.job] at hx'
+      · exact h.uniq w1 w2 j0 x x' h1 h2 hx hx'
+
+/-- an invocation announces new jobs -/
+theorem jinv0_announce (s : St) (t : Nat) (js : List (Nat × Bool)) (h : JInv0 s) :
+    JInv0 { s with jobs := s.jobs ++ newJobs t js } := by
+  have hnew : ∀ (u : Nat) (x : Job), (s.jobs ++ newJobs t js)[u]? = some x →
+      s.jobs[u]? = some x ∨ (x.st = .fresh ∧ x.seq = none ∧ x.starts = 0) := by
+    intro u x hx
+    by_cases hlt : u < s.jobs.length
+    · left; rw [List.getElem?_append_left hlt] at hx; exact hx
+    · right
+      rw [List.getElem?_append_right (by omega)] at hx
+      have := List.mem_of_getElem? hx
+      simp only [newJobs, List.mem_map] at this
+      obtain ⟨p, _, rfl⟩ := this
+      exact ⟨rfl, rfl, rfl⟩
+  have hold : ∀ (u : Nat) (x : Job), s.jobs[u]? = some x → (s.jobs ++ newJobs t js)[u]? = some x := by
+    intro u x hx; rw [List.getElem?_append_left (lt_of_getElem? hx)]; exact hx
+  have hcnt : ∀ p : Job → Bool, (∀ x : Job, x.st = .fresh → p x = false) →
+      (s.jobs ++ newJobs t js).countP p = s.jobs.countP p := by
+    intro p hp
+    rw [List.countP_append]
+    have : (newJobs t js).countP p = 0 := by
+      rw [List.countP_eq_zero]
+      intro x hx
+      simp only [newJobs, List.mem_map] at hx
+      obtain ⟨q, _, rfl⟩ := hx
+      simp [hp]
+    omega
+  refine ⟨h.bcwf, h.bccur, h.qlen, h.run, h.lim, h.nseq, ?_, ?_, ?_, ?_, ?_, ?_, ?_, h.uniq, ?_, ?_⟩
+  · intro k j hk
+    obtain ⟨x, hx, r⟩ := h.qjobs k j hk
+    exact ⟨x, hold j x hx, r⟩
+  · intro u x hx
+    rcases hnew u x hx with hx' | ⟨a, b, _⟩
+    · exact h.seqs u x hx'
+    · exact ⟨by simp [a, b], by intro q hq; rw [b] at hq; cases hq⟩
+  · intro u u' x x' q hx hx' hq hq'
+    rcases hnew u x hx with h1 | ⟨_, b, _⟩
+    · rcases hnew u' x' hx' with h2 | ⟨_, b', _⟩
+      · exact h.seqinj u u' x x' q h1 h2 hq hq'
+      · rw [b'] at hq'; cases hq'
+    · rw [b] at hq; cases hq
+  · rw [hcnt _ (by intro x hx; simp [Job.isAssigned, hx])]; exact h.cntA
+  · rw [hcnt _ (by intro x hx; simp [Job.isActive, hx])]; exact h.cntR
+  · intro w j hw
+    obtain ⟨x, hx, r⟩ := h.hasJ w j hw
+    exact ⟨x, hold j x hx, r⟩
+  · intro w j hw
+    obtain ⟨x, hx, r⟩ := h.inJ w j hw
+    exact ⟨x, hold j x hx, r⟩
+  · intro u x hx
+    rcases hnew u x hx with hx' | ⟨a, _, c⟩
+    · exact h.starts u x hx'
+    · simp [a, c]
+  · intro hl u x q hx hq hlt
+    rcases hnew u x hx with hx' | ⟨_, b, _⟩
+    · exact h.l1 hl u x q hx' hq hlt
+    · rw [b] at hq; cases hq
 
 end UtilModel.Conc
